@@ -1083,3 +1083,36 @@ pub fn replay(path: &str) -> i32 {
     let _ = std::fs::remove_dir_all(&work_root);
     code
 }
+
+/// Shrink the workload of an existing replay file further (offline tool).
+pub fn minimise_replay(path: &str, out_path: &str, budget: usize, tripwire_ms: u64) -> i32 {
+    let rp: ReplayFile = serde_json::from_str(&std::fs::read_to_string(path).expect("cannot read replay")).expect("cannot parse replay");
+    let verif_dir = std::env::var("VERIF_DIR").unwrap_or_else(|_| "/verif".into());
+    let paths = Paths::from_env();
+    let work_root = PathBuf::from(format!("{verif_dir}/work/{}", std::process::id()));
+    let known = discover(&paths, &verif_dir);
+    let ctx = Ctx { paths, known, seed: simcommon::verif_seed(), verif_dir: verif_dir.clone(), findings: vec![] };
+    let wd = WorkDir::new(&work_root.join("min"), &ctx.paths);
+    wd.tripwire_ms.set(tripwire_ms);
+    let elf = from_hex(&rp.elf_hex);
+    let class = rp.violation.class.clone();
+    let mut n = 0usize;
+    let mut fails = |cand: &Value| -> bool {
+        n += 1;
+        wd.write_workload(&serde_json::to_vec(cand).unwrap(), &elf);
+        matches!(evaluate(&ctx, &wd, &rp.oracle, &rp.case, rp.lkm), Err((v, _)) if v.class == class)
+    };
+    if !fails(&rp.pcode) {
+        eprintln!("the replay does not reproduce {class}: {:?}", evaluate(&ctx, &wd, &rp.oracle, &rp.case, rp.lkm).map(|_| ()).map_err(|e| e.0));
+        return 2;
+    }
+    let min = minimise::minimise_pcode(&rp.pcode, &mut fails, budget);
+    let (ns, nb, nd) = minimise::count(&min);
+    println!("minimised to {ns} functions, {nb} blocks, {nd} defs after {n} evaluations");
+    let mut meta = rp.meta.clone();
+    meta["minimised_to"] = json!({"functions": ns, "blocks": nb, "defs": nd});
+    let out = ReplayFile { pcode: min, meta, ..rp };
+    std::fs::write(out_path, serde_json::to_string(&out).unwrap()).unwrap();
+    let _ = std::fs::remove_dir_all(&work_root);
+    0
+}
